@@ -1,5 +1,6 @@
 import VyxalModel.Model.Transpile
 import VyxalModel.Model.WFPy
+import VyxalModel.Model.Placed
 import VyxalModel.Gen.Elements
 import VyxalModel.Gen.Modifiers
 /-!
@@ -121,5 +122,537 @@ theorem lambda_template_wf (l d : Bool) (id : Str) (ar : PyExpr) (body : List Py
   have hne : ¬ lambdaEpilogue = [] := by simp [lambdaEpilogue]
   simp [lambdaTemplate, wfL, wfS, wfL_append, hp, he, hb, lambdaParams, wfO, wfE, assign1, push, stackE, wfTarget, wfEL,
     wfKw, har, hne]
+
+/-! ## the tree-level theorem: every parsed program whose `X` / `x` stand where `parse` says transpiles to well-formed Python -/
+
+/-- the regenerated tables hold well-formed templates only -/
+def TablesWF (env : TEnv) : Prop := (env.elements ++ env.modifiers).all entryWF = true
+
+theorem lookupEntry_mem (tbl : List Gen.Entry) (k : Str) :
+    ∀ (acc : Option Gen.Entry) (e : Gen.Entry), (∀ e0, acc = some e0 → e0 ∈ tbl) →
+      tbl.foldl (fun acc e => if e.key = k then some e else acc) acc = some e → e ∈ tbl := by
+  suffices h : ∀ (l : List Gen.Entry), (∀ x ∈ l, x ∈ tbl) → ∀ (acc : Option Gen.Entry) (e : Gen.Entry), (∀ e0, acc = some e0 → e0 ∈ tbl) →
+      l.foldl (fun acc e => if e.key = k then some e else acc) acc = some e → e ∈ tbl from h tbl (fun _ hx => hx)
+  intro l
+  induction l with
+  | nil => intro _ acc e hacc h; exact hacc e h
+  | cons x xs ih =>
+    intro hl acc e hacc h
+    simp only [List.foldl_cons] at h
+    apply ih (fun y hy => hl y (List.mem_cons_of_mem _ hy)) _ e _ h
+    intro e0 he0
+    by_cases hx : x.key = k
+    · simp [hx] at he0; subst he0; exact hl x (List.mem_cons_self)
+    · simp [hx] at he0; exact hacc e0 he0
+
+theorem entry_wf (env : TEnv) (hT : TablesWF env) (tbl : List Gen.Entry) (htbl : ∀ e ∈ tbl, e ∈ env.elements ++ env.modifiers)
+    (k : Str) (e : Gen.Entry) (b : List PyStmt) (hl : lookupEntry tbl k = some e) (hb : e.body = some b) (l d : Bool) :
+    wfL l d b = true ∧ b ≠ [] := by
+  have hmem := htbl e (lookupEntry_mem tbl k Option.none e (by intro e0 he0; simp at he0) hl)
+  have h := List.all_eq_true.mp hT e hmem
+  simp only [entryWF, hb, Bool.and_eq_true] at h
+  refine ⟨wf_monoL b false false l d (fun x => by simp at x) (fun x => by simp at x) h.2, ?_⟩
+  intro hb0; rw [hb0] at h; simp at h
+
+theorem wf_orPass (l d : Bool) (b : List PyStmt) (h : wfL l d b = true) : wfL l d (orPass b) = true ∧ orPass b ≠ [] := by
+  unfold orPass
+  cases b with
+  | nil => simp [wfL, wfS]
+  | cons s r => simpa using h
+
+theorem wf_push (l d : Bool) (e : PyExpr) (he : wfE e = true) : wfL l d [push e] = true := by
+  simp [wfL, wfS, push, stackE, wfE, wfEL, wfKw, he]
+
+theorem wfE_pyInt (i : Int) : wfE (pyInt i) = true := by
+  unfold pyInt
+  split
+  · unfold wfE; unfold wfE; rfl
+  · unfold wfE; rfl
+
+theorem token_wf (env : TEnv) (hT : TablesWF env) (t : Token) (code : List PyStmt) (ht : transpileToken env t = .ok code) (l d : Bool) :
+    wfL l d code = true := by
+  unfold transpileToken at ht
+  cases hk : t.kind with
+  | string =>
+    simp only [hk] at ht
+    split at ht
+    · simp at ht; subst ht; exact wf_push l d _ (by simp [wfE])
+    · simp at ht
+    · simp at ht
+  | number =>
+    simp only [hk] at ht
+    simp at ht; subst ht; exact wf_push l d _ (by simp [wfE, wfEL, wfKw])
+  | general =>
+    simp only [hk] at ht
+    cases hl : lookupEntry env.elements t.value with
+    | none => simp [hl] at ht; subst ht; simp [wfL, wfS]
+    | some e =>
+      simp only [hl] at ht
+      cases hb : e.body with
+      | none => simp [hb] at ht
+      | some b =>
+        simp [hb] at ht; subst ht
+        exact (entry_wf env hT env.elements (fun e he => List.mem_append_left _ he) t.value e b hl hb l d).1
+  | cnum =>
+    simp only [hk] at ht
+    split at ht
+    · simp at ht; subst ht; exact wf_push l d _ (by simp [wfE])
+    · simp at ht
+  | cstr =>
+    simp only [hk] at ht
+    split at ht
+    · simp at ht; subst ht; exact wf_push l d _ (by simp [wfE])
+    · simp at ht
+  | vget =>
+    simp only [hk] at ht
+    split at ht
+    · simp at ht; subst ht; exact wf_push l d _ (by simp [wfE, ctxE])
+    · split at ht <;> (simp at ht; subst ht; exact wf_push l d _ (by simp [wfE, ctxE]))
+  | vset =>
+    simp only [hk] at ht
+    split at ht
+    · simp at ht; subst ht; simp [wfL, wfS, assign1, pop1kw, stackE, kwCtx, ctxE, wfE, wfEL, wfKw, wfTarget]
+    · split at ht <;> (simp at ht; subst ht; simp [wfL, wfS, assign1, pop1kw, pop1pos, stackE, kwCtx, ctxE, wfE, wfEL, wfKw, wfTarget])
+  | cpnum =>
+    simp only [hk] at ht
+    simp at ht; subst ht
+    exact wf_push l d _ (wfE_pyInt _)
+  | character =>
+    simp only [hk] at ht
+    simp at ht; subst ht; exact wf_push l d _ (by simp [wfE])
+
+/-! ### the structure templates around well-formed parts -/
+
+/-- every branch well formed and not empty -/
+def allWF (l d : Bool) : List (List PyStmt) → Bool
+  | [] => true
+  | c :: r => wfL l d c && !c.isEmpty && allWF l d r
+
+theorem ifChain_wf (l d : Bool) : ∀ (cs : List (List PyStmt)), allWF l d cs = true → wfL l d (ifChain cs) = true
+  | [], _ => by simp [ifChain, wfL]
+  | [b0], h => by
+      simp only [allWF, Bool.and_eq_true] at h
+      simp [ifChain, wfL, wfS, condPop, boolifyCond, assign1, callN, nm, pop1kw, stackE, kwCtx, ctxE, wfE, wfEL, wfKw, wfTarget, h.1.1]
+      simpa using h.1.2
+  | [b0, b1], h => by
+      simp only [allWF, Bool.and_eq_true] at h
+      simp [ifChain, wfL, wfS, condPop, boolifyCond, assign1, callN, nm, pop1kw, stackE, kwCtx, ctxE, wfE, wfEL, wfKw, wfTarget, h.1.1,
+        h.2.1.1]
+      simpa using h.1.2
+  | b0 :: b1 :: b2 :: rest, h => by
+      simp only [allWF, Bool.and_eq_true] at h
+      have ih := ifChain_wf l d (b2 :: rest) (by simp only [allWF, Bool.and_eq_true]; exact h.2.2)
+      simp only [ifChain]
+      simp [wfL, wfS, wfL_append, condPop, boolifyCond, assign1, callN, nm, pop1kw, stackE, kwCtx, ctxE, wfE, wfEL, wfKw, wfTarget, h.1.1,
+        h.2.1.1, ih]
+      simpa using h.1.2
+
+theorem while2_wf (l d : Bool) (c1 c2 body : List PyStmt) (h1 : wfL l d c1 = true) (h2 : wfL true d c2 = true)
+    (hb : wfL true d body = true) :
+    wfL l d (c1 ++ [ condPop, .whileS boolifyCond
+      ([ctxCall "context_values" "append" [nm "condition"]] ++ body ++ [ctxCall "context_values" "pop" []] ++ c2 ++ [condPop]) ]) = true := by
+  simp [wfL, wfS, wfL_append, h1, h2, hb, condPop, boolifyCond, assign1, ctxCall, ctxE, callN, nm, pop1kw, stackE, kwCtx, wfE, wfEL,
+    wfKw, wfTarget]
+
+theorem fnCall_wf (l d : Bool) (name : Str) : wfL l d (fnCallTemplate name) = true := by
+  simp [fnCallTemplate, wfL, wfS, stackE, ctxE, wfE, wfEL, wfKw, wfTarget]
+
+theorem paramStmt_wf (p : Str) : wfS false true (paramStmt p) = true := by
+  unfold paramStmt
+  split
+  · simp [wfS, nm, callN, ctxE, wfE, wfEL, wfKw, wfTarget]
+  · split
+    · simp [wfS, nm, pop1kw, kwCtx, ctxE, wfE, wfEL, wfKw, wfTarget]
+    · simp [wfS, assign1, nm, pop1kw, kwCtx, ctxE, wfE, wfEL, wfKw, wfTarget]
+
+theorem params_wf : ∀ ps : List Str, wfL false true (ps.map paramStmt) = true
+  | [] => by simp [wfL]
+  | p :: ps => by simp [wfL, paramStmt_wf p, params_wf ps]
+
+theorem fnDef_wf (l d : Bool) (name : Str) (params : List Str) (body : List PyStmt) (hb : wfL false true body = true) :
+    wfL l d (fnDefTemplate name params body) = true := by
+  have hp : wfL false true (fnDefPrologue name params) = true := by
+    simp [fnDefPrologue, wfL, wfS, wfL_append, params_wf, assign1, ctxCall, ctxE, nm, stackE, wfE, wfEL, wfKw, wfO, wfTarget]
+  have he : wfL false true fnDefEpilogue = true := by decide
+  have hne : ¬ fnDefEpilogue = [] := by simp [fnDefEpilogue]
+  simp [fnDefTemplate, wfL, wfS, wfL_append, hp, he, hb, lambdaParams, wfO, wfE, hne]
+
+theorem listItem_wf (l d : Bool) (item : List PyStmt) (hi : wfL false true item = true) :
+    wfL l d (listItemTemplate item) = true := by
+  have he : wfL false true listItemEpilogue = true := by decide
+  simp [listItemTemplate, wfL, wfS, wfL_append, hi, he, assign1, callN, nm, stackE, ctxE, wfE, wfEL, wfKw, wfO, wfC, wfTarget]
+
+theorem listItems_wf (l d : Bool) : ∀ items : List (List PyStmt), allWF false true items = true →
+    wfL l d (items.map listItemTemplate).flatten = true
+  | [], _ => by simp [wfL]
+  | i :: r, h => by
+      simp only [allWF, Bool.and_eq_true] at h
+      simp [wfL_append, listItem_wf l d i h.1.1, listItems_wf l d r h.2]
+
+theorem list_wf (l d : Bool) (items : List (List PyStmt)) (h : allWF false true items = true) :
+    wfL l d (listTemplate items) = true := by
+  simp [listTemplate, wfL, wfS, wfL_append, listItems_wf l d items h, assign1, push, callN, nm, stackE, wfE, wfEL, wfKw, wfTarget]
+
+theorem break_wf (l d : Bool) (p : Parent) (h : placedBrk l d p = true) : wfL l d (breakTemplate p) = true := by
+  cases l <;> cases d <;> cases p <;> first | decide | simp [placedBrk] at h
+
+theorem recurse_wf (l d : Bool) (p : Parent) (h : placedRec l p = true) : wfL l d (recurseTemplate p) = true := by
+  cases l <;> cases d <;> cases p <;> first | decide | simp [placedRec] at h
+
+theorem functionPop_wf (l d : Bool) (x : String) : wfS l d (functionPop x) = true := by
+  simp [functionPop, wfS, assign1, nm, pop1pos, stackE, ctxE, wfE, wfEL, wfKw, wfTarget]
+
+theorem modTemplate_wf (env : TEnv) (hT : TablesWF env) (m : Str) (tmpl : List PyStmt) (ht : modTemplate env m = .ok tmpl) (l d : Bool) :
+    wfL l d tmpl = true := by
+  unfold modTemplate at ht
+  cases hl : lookupEntry env.modifiers m with
+  | none => simp [hl] at ht; subst ht; simp [wfL, wfS]
+  | some e =>
+    simp only [hl] at ht
+    cases hb : e.body with
+    | none => simp [hb] at ht
+    | some b =>
+      simp [hb] at ht; subst ht
+      exact (entry_wf env hT env.modifiers (fun e he => List.mem_append_right _ he) m e b hl hb l d).1
+
+theorem arityExpr_wf (ar : Option Nat) : wfE (arityExpr ar) = true := by
+  cases ar <;> simp [arityExpr, wfE, ctxE]
+
+/-! ### the induction over the program -/
+
+@[local simp] theorem ex_ok_bind {ε α β} (a : α) (f : α → Except ε β) : ((Except.ok a : Except ε α) >>= f) = f a := rfl
+@[local simp] theorem ex_err_bind {ε α β} (e : ε) (f : α → Except ε β) : ((Except.error e : Except ε α) >>= f) = .error e := rfl
+@[local simp] theorem ex_map_ok {ε α β} (a : α) (f : α → β) : (f <$> (Except.ok a : Except ε α)) = .ok (f a) := rfl
+@[local simp] theorem ex_map_err {ε α β} (e : ε) (f : α → β) : (f <$> (Except.error e : Except ε α)) = .error e := rfl
+@[local simp] theorem ex_pure {ε α} (a : α) : (pure a : Except ε α) = .ok a := rfl
+
+mutual
+theorem trS_wf (env : TEnv) (hT : TablesWF env) : ∀ (s : Structure) (l d : Bool) (k : Nat) (code : List PyStmt) (k' : Nat),
+    placedS l d s = true → transpileS env k s = .ok (code, k') → wfL l d code = true
+  | .generic t, l, d, k, code, k', _, ht => by
+      simp only [transpileS] at ht
+      cases htt : transpileToken env t with
+      | error e => simp [htt] at ht
+      | ok c => simp [htt] at ht; obtain ⟨h1, _⟩ := ht; subst h1; exact token_wf env hT t c htt l d
+  | .brk p, l, d, k, code, k', hp, ht => by
+      simp [transpileS] at ht; obtain ⟨h1, _⟩ := ht; subst h1
+      exact break_wf l d p (by simpa [placedS] using hp)
+  | .recurse p, l, d, k, code, k', hp, ht => by
+      simp [transpileS] at ht; obtain ⟨h1, _⟩ := ht; subst h1
+      exact recurse_wf l d p (by simpa [placedS] using hp)
+  | .ifS bs, l, d, k, code, k', hp, ht => by
+      simp only [placedS] at hp
+      simp only [transpileS] at ht
+      cases hll : transpileLL env k bs with
+      | error e => simp [hll] at ht
+      | ok r =>
+        obtain ⟨cs, k1⟩ := r
+        simp [hll] at ht; obtain ⟨h1, _⟩ := ht; subst h1
+        exact ifChain_wf l d cs (trLL_wf env hT bs l d k cs k1 hp hll)
+  | .forS names body, l, d, k, code, k', hp, ht => by
+      simp only [placedS] at hp
+      cases names with
+      | nil =>
+        simp only [transpileS] at ht
+        cases hb : transpileL env (k + 1) body with
+        | error e => simp [hb] at ht
+        | ok r =>
+          obtain ⟨b, k2⟩ := r
+          simp [hb] at ht; obtain ⟨h1, _⟩ := ht; subst h1
+          exact for_template_wf l d _ _ (by simp [wfTarget]) (by simp [wfE]) (wf_orPass true d b (trL_wf env hT body true d (k + 1) b k2 hp hb)).1
+      | cons nm rest =>
+        simp only [transpileS] at ht
+        cases hb : transpileL env k body with
+        | error e => simp [hb] at ht
+        | ok r =>
+          obtain ⟨b, k2⟩ := r
+          simp [hb] at ht; obtain ⟨h1, _⟩ := ht; subst h1
+          have hbw := (wf_orPass true d b (trL_wf env hT body true d k b k2 hp hb)).1
+          split
+          · exact for_template_wf l d _ _ (by simp [wfTarget, wfE, ctxE]) (by simp [wfE, ctxE]) hbw
+          · exact for_template_wf l d _ _ (by simp [wfTarget]) (by simp [wfE]) hbw
+  | .whileS Option.none body, l, d, k, code, k', hp, ht => by
+      simp only [placedS] at hp
+      simp only [transpileS] at ht
+      cases hc : transpileToken env ⟨.number, [49]⟩ with
+      | error e => simp [hc] at ht
+      | ok c =>
+        cases hb : transpileL env k body with
+        | error e => simp [hc, hb] at ht
+        | ok r =>
+          obtain ⟨b, k2⟩ := r
+          simp [hc, hb] at ht; obtain ⟨h1, _⟩ := ht; subst h1
+          exact while_template_wf l d c _ (fun l' => token_wf env hT _ c hc l' d)
+            (wf_orPass true d b (trL_wf env hT body true d k b k2 hp hb)).1
+  | .whileS (some cnd) body, l, d, k, code, k', hp, ht => by
+      simp only [placedS, Bool.and_eq_true] at hp
+      simp only [transpileS] at ht
+      cases hc1 : transpileL env k cnd with
+      | error e => simp [hc1] at ht
+      | ok r1 =>
+        obtain ⟨c1, k1⟩ := r1
+        cases hb : transpileL env k1 body with
+        | error e => simp [hc1, hb] at ht
+        | ok r2 =>
+          obtain ⟨b, k2⟩ := r2
+          cases hc2 : transpileL env k2 cnd with
+          | error e => simp [hc1, hb, hc2] at ht
+          | ok r3 =>
+            obtain ⟨c2, k3⟩ := r3
+            simp [hc1, hb, hc2] at ht; obtain ⟨h1, _⟩ := ht; subst h1
+            have w1 := (wf_orPass l d c1 (trL_wf env hT cnd l d k c1 k1 hp.1 hc1)).1
+            have w2 := (wf_orPass l d c2 (trL_wf env hT cnd l d k2 c2 k3 hp.1 hc2)).1
+            have w2' := wf_monoL _ l d true d (fun _ => rfl) (fun x => x) w2
+            have wb := (wf_orPass true d b (trL_wf env hT body true d k1 b k2 hp.2 hb)).1
+            have := while2_wf l d (orPass c1) (orPass c2) (orPass b) w1 w2' wb
+            simpa using this
+  | .fnCall name, l, d, k, code, k', _, ht => by
+      simp [transpileS] at ht; obtain ⟨h1, _⟩ := ht; subst h1
+      exact fnCall_wf l d name
+  | .fnDef name params body, l, d, k, code, k', hp, ht => by
+      simp only [placedS] at hp
+      simp only [transpileS] at ht
+      cases hb : transpileL env k body with
+      | error e => simp [hb] at ht
+      | ok r =>
+        obtain ⟨b, k2⟩ := r
+        simp [hb] at ht; obtain ⟨h1, _⟩ := ht; subst h1
+        exact fnDef_wf l d name params _ (wf_orPass false true b (trL_wf env hT body false true k b k2 hp hb)).1
+  | .lam ar body, l, d, k, code, k', hp, ht => by
+      simp only [placedS] at hp
+      simp only [transpileS] at ht
+      cases hb : transpileL env (k + 1) body with
+      | error e => simp [hb] at ht
+      | ok r =>
+        obtain ⟨b, k2⟩ := r
+        simp [hb] at ht; obtain ⟨h1, _⟩ := ht; subst h1
+        exact lambda_template_wf l d _ _ _ (arityExpr_wf ar) (wf_orPass false true b (trL_wf env hT body false true (k + 1) b k2 hp hb)).1
+  | .lamOp kind body, l, d, k, code, k', hp, ht => by
+      simp only [placedS] at hp
+      simp only [transpileS] at ht
+      cases hb : transpileL env (k + 1) body with
+      | error e => simp [hb] at ht
+      | ok r =>
+        obtain ⟨b, k2⟩ := r
+        cases hta : transpileToken env ⟨.general, lamOpKey kind⟩ with
+        | error e => simp [hb, hta] at ht
+        | ok a =>
+          simp [hb, hta] at ht; obtain ⟨h1, _⟩ := ht; subst h1
+          rw [wfL_append, lambda_template_wf l d _ _ _ (by simp [wfE]) (wf_orPass false true b (trL_wf env hT body false true (k + 1) b k2 hp hb)).1,
+            token_wf env hT _ a hta l d]
+          rfl
+  | .listS items, l, d, k, code, k', hp, ht => by
+      simp only [placedS] at hp
+      simp only [transpileS] at ht
+      cases hll : transpileLL env k items with
+      | error e => simp [hll] at ht
+      | ok r =>
+        obtain ⟨cs, k1⟩ := r
+        simp [hll] at ht; obtain ⟨h1, _⟩ := ht; subst h1
+        exact list_wf l d cs (trLL_wf env hT items false true k cs k1 hp hll)
+  | .mon m a, l, d, k, code, k', hp, ht => by
+      simp only [placedS] at hp
+      simp only [transpileS] at ht
+      cases hw : wrapLambda env k a with
+      | error e => simp [hw] at ht
+      | ok r =>
+        obtain ⟨fa, k1⟩ := r
+        cases hmt : modTemplate env m with
+        | error e => simp [hw, hmt] at ht
+        | ok tmpl =>
+          simp [hw, hmt] at ht; obtain ⟨h1, _⟩ := ht; subst h1
+          simp [wfL_append, wfL, wrap_wf env hT a l d k fa k1 hp hw, functionPop_wf, modTemplate_wf env hT m tmpl hmt l d]
+  | .dy m a b, l, d, k, code, k', hp, ht => by
+      simp only [placedS, Bool.and_eq_true] at hp
+      simp only [transpileS] at ht
+      cases hwa : wrapLambda env k a with
+      | error e => simp [hwa] at ht
+      | ok r =>
+        obtain ⟨fa, k1⟩ := r
+        cases hwb : wrapLambda env k1 b with
+        | error e => simp [hwa, hwb] at ht
+        | ok r2 =>
+          obtain ⟨fb, k2⟩ := r2
+          cases hmt : modTemplate env m with
+          | error e => simp [hwa, hwb, hmt] at ht
+          | ok tmpl =>
+            simp [hwa, hwb, hmt] at ht; obtain ⟨h1, _⟩ := ht; subst h1
+            simp [wfL_append, wfL, wrap_wf env hT a l d k fa k1 hp.1 hwa, wrap_wf env hT b l d k1 fb k2 hp.2 hwb, functionPop_wf,
+              modTemplate_wf env hT m tmpl hmt l d]
+  | .tri m a b c, l, d, k, code, k', hp, ht => by
+      simp only [placedS, Bool.and_eq_true] at hp
+      simp only [transpileS] at ht
+      cases hwa : wrapLambda env k a with
+      | error e => simp [hwa] at ht
+      | ok r =>
+        obtain ⟨fa, k1⟩ := r
+        cases hwb : wrapLambda env k1 b with
+        | error e => simp [hwa, hwb] at ht
+        | ok r2 =>
+          obtain ⟨fb, k2⟩ := r2
+          cases hwc : wrapLambda env k2 c with
+          | error e => simp [hwa, hwb, hwc] at ht
+          | ok r3 =>
+            obtain ⟨fc, k3⟩ := r3
+            cases hmt : modTemplate env m with
+            | error e => simp [hwa, hwb, hwc, hmt] at ht
+            | ok tmpl =>
+              simp [hwa, hwb, hwc, hmt] at ht; obtain ⟨h1, _⟩ := ht; subst h1
+              simp [wfL_append, wfL, wrap_wf env hT a l d k fa k1 hp.1.1 hwa, wrap_wf env hT b l d k1 fb k2 hp.1.2 hwb,
+                wrap_wf env hT c l d k2 fc k3 hp.2 hwc, functionPop_wf, modTemplate_wf env hT m tmpl hmt l d]
+theorem wrap_wf (env : TEnv) (hT : TablesWF env) : ∀ (s : Structure) (l d : Bool) (k : Nat) (code : List PyStmt) (k' : Nat),
+    placedS false true s = true → wrapLambda env k s = .ok (code, k') → wfL l d code = true
+  | .generic t, l, d, k, code, k', _, hw => by
+      simp only [wrapLambda] at hw
+      cases ht : transpileToken env t with
+      | error e => simp [ht] at hw
+      | ok b =>
+        simp [ht] at hw; obtain ⟨h1, _⟩ := hw; subst h1
+        exact lambda_template_wf l d _ _ _ (wfE_pyInt _) (token_wf env hT t b ht false true)
+  | .lam ar body, l, d, k, code, k', hp, hw => by
+      simp only [wrapLambda] at hw
+      exact trS_wf env hT (.lam ar body) l d k code k' (by simpa [placedS] using hp) hw
+  | .brk p, l, d, k, code, k', hp, hw => by
+      simp only [wrapLambda] at hw
+      cases hb : transpileS env (k + 1) (.brk p) with
+      | error e => simp [hb] at hw
+      | ok r =>
+        obtain ⟨b, k2⟩ := r; simp [hb] at hw; obtain ⟨h1, _⟩ := hw; subst h1
+        exact lambda_template_wf l d _ _ _ (by simp [wfE]) (trS_wf env hT _ false true (k + 1) b k2 hp hb)
+  | .recurse p, l, d, k, code, k', hp, hw => by
+      simp only [wrapLambda] at hw
+      cases hb : transpileS env (k + 1) (.recurse p) with
+      | error e => simp [hb] at hw
+      | ok r =>
+        obtain ⟨b, k2⟩ := r; simp [hb] at hw; obtain ⟨h1, _⟩ := hw; subst h1
+        exact lambda_template_wf l d _ _ _ (by simp [wfE]) (trS_wf env hT _ false true (k + 1) b k2 hp hb)
+  | .ifS bs, l, d, k, code, k', hp, hw => by
+      simp only [wrapLambda] at hw
+      cases hb : transpileS env (k + 1) (.ifS bs) with
+      | error e => simp [hb] at hw
+      | ok r =>
+        obtain ⟨b, k2⟩ := r; simp [hb] at hw; obtain ⟨h1, _⟩ := hw; subst h1
+        exact lambda_template_wf l d _ _ _ (by simp [wfE]) (trS_wf env hT _ false true (k + 1) b k2 hp hb)
+  | .forS ns body, l, d, k, code, k', hp, hw => by
+      simp only [wrapLambda] at hw
+      cases hb : transpileS env (k + 1) (.forS ns body) with
+      | error e => simp [hb] at hw
+      | ok r =>
+        obtain ⟨b, k2⟩ := r; simp [hb] at hw; obtain ⟨h1, _⟩ := hw; subst h1
+        exact lambda_template_wf l d _ _ _ (by simp [wfE]) (trS_wf env hT _ false true (k + 1) b k2 hp hb)
+  | .whileS c body, l, d, k, code, k', hp, hw => by
+      simp only [wrapLambda] at hw
+      cases hb : transpileS env (k + 1) (.whileS c body) with
+      | error e => simp [hb] at hw
+      | ok r =>
+        obtain ⟨b, k2⟩ := r; simp [hb] at hw; obtain ⟨h1, _⟩ := hw; subst h1
+        exact lambda_template_wf l d _ _ _ (by simp [wfE]) (trS_wf env hT _ false true (k + 1) b k2 hp hb)
+  | .fnCall nme, l, d, k, code, k', hp, hw => by
+      simp only [wrapLambda] at hw
+      cases hb : transpileS env (k + 1) (.fnCall nme) with
+      | error e => simp [hb] at hw
+      | ok r =>
+        obtain ⟨b, k2⟩ := r; simp [hb] at hw; obtain ⟨h1, _⟩ := hw; subst h1
+        exact lambda_template_wf l d _ _ _ (by simp [wfE]) (trS_wf env hT _ false true (k + 1) b k2 hp hb)
+  | .fnDef nme ps body, l, d, k, code, k', hp, hw => by
+      simp only [wrapLambda] at hw
+      cases hb : transpileS env (k + 1) (.fnDef nme ps body) with
+      | error e => simp [hb] at hw
+      | ok r =>
+        obtain ⟨b, k2⟩ := r; simp [hb] at hw; obtain ⟨h1, _⟩ := hw; subst h1
+        exact lambda_template_wf l d _ _ _ (by simp [wfE]) (trS_wf env hT _ false true (k + 1) b k2 hp hb)
+  | .lamOp kd body, l, d, k, code, k', hp, hw => by
+      simp only [wrapLambda] at hw
+      cases hb : transpileS env (k + 1) (.lamOp kd body) with
+      | error e => simp [hb] at hw
+      | ok r =>
+        obtain ⟨b, k2⟩ := r; simp [hb] at hw; obtain ⟨h1, _⟩ := hw; subst h1
+        exact lambda_template_wf l d _ _ _ (by simp [wfE]) (trS_wf env hT _ false true (k + 1) b k2 hp hb)
+  | .listS items, l, d, k, code, k', hp, hw => by
+      simp only [wrapLambda] at hw
+      cases hb : transpileS env (k + 1) (.listS items) with
+      | error e => simp [hb] at hw
+      | ok r =>
+        obtain ⟨b, k2⟩ := r; simp [hb] at hw; obtain ⟨h1, _⟩ := hw; subst h1
+        exact lambda_template_wf l d _ _ _ (by simp [wfE]) (trS_wf env hT _ false true (k + 1) b k2 hp hb)
+  | .mon m x, l, d, k, code, k', hp, hw => by
+      simp only [wrapLambda] at hw
+      cases hb : transpileS env (k + 1) (.mon m x) with
+      | error e => simp [hb] at hw
+      | ok r =>
+        obtain ⟨b, k2⟩ := r; simp [hb] at hw; obtain ⟨h1, _⟩ := hw; subst h1
+        exact lambda_template_wf l d _ _ _ (by simp [wfE]) (trS_wf env hT _ false true (k + 1) b k2 hp hb)
+  | .dy m x y, l, d, k, code, k', hp, hw => by
+      simp only [wrapLambda] at hw
+      cases hb : transpileS env (k + 1) (.dy m x y) with
+      | error e => simp [hb] at hw
+      | ok r =>
+        obtain ⟨b, k2⟩ := r; simp [hb] at hw; obtain ⟨h1, _⟩ := hw; subst h1
+        exact lambda_template_wf l d _ _ _ (by simp [wfE]) (trS_wf env hT _ false true (k + 1) b k2 hp hb)
+  | .tri m x y z, l, d, k, code, k', hp, hw => by
+      simp only [wrapLambda] at hw
+      cases hb : transpileS env (k + 1) (.tri m x y z) with
+      | error e => simp [hb] at hw
+      | ok r =>
+        obtain ⟨b, k2⟩ := r; simp [hb] at hw; obtain ⟨h1, _⟩ := hw; subst h1
+        exact lambda_template_wf l d _ _ _ (by simp [wfE]) (trS_wf env hT _ false true (k + 1) b k2 hp hb)
+theorem trL_wf (env : TEnv) (hT : TablesWF env) : ∀ (prog : List Structure) (l d : Bool) (k : Nat) (code : List PyStmt) (k' : Nat),
+    placedL l d prog = true → transpileL env k prog = .ok (code, k') → wfL l d code = true
+  | [], l, d, k, code, k', _, ht => by
+      simp [transpileL] at ht; obtain ⟨h1, _⟩ := ht; subst h1; simp [wfL]
+  | s :: rest, l, d, k, code, k', hp, ht => by
+      simp only [placedL, Bool.and_eq_true] at hp
+      simp only [transpileL] at ht
+      cases hs : transpileS env k s with
+      | error e => simp [hs] at ht
+      | ok r1 =>
+        obtain ⟨a, k1⟩ := r1
+        cases hr : transpileL env k1 rest with
+        | error e => simp [hs, hr] at ht
+        | ok r2 =>
+          obtain ⟨b, k2⟩ := r2
+          simp [hs, hr] at ht; obtain ⟨h1, _⟩ := ht; subst h1
+          rw [wfL_append, trS_wf env hT s l d k a k1 hp.1 hs, trL_wf env hT rest l d k1 b k2 hp.2 hr]; rfl
+theorem trLL_wf (env : TEnv) (hT : TablesWF env) : ∀ (bs : List (List Structure)) (l d : Bool) (k : Nat) (cs : List (List PyStmt)) (k' : Nat),
+    placedLL l d bs = true → transpileLL env k bs = .ok (cs, k') → allWF l d cs = true
+  | [], l, d, k, cs, k', _, ht => by
+      simp [transpileLL] at ht; obtain ⟨h1, _⟩ := ht; subst h1; simp [allWF]
+  | b :: rest, l, d, k, cs, k', hp, ht => by
+      simp only [placedLL, Bool.and_eq_true] at hp
+      simp only [transpileLL] at ht
+      cases hl : transpileL env k b with
+      | error e => simp [hl] at ht
+      | ok r1 =>
+        obtain ⟨a, k1⟩ := r1
+        cases hr : transpileLL env k1 rest with
+        | error e => simp [hl, hr] at ht
+        | ok r2 =>
+          obtain ⟨c, k2⟩ := r2
+          simp [hl, hr] at ht; obtain ⟨h1, _⟩ := ht; subst h1
+          have hw := wf_orPass l d a (trL_wf env hT b l d k a k1 hp.1 hl)
+          simp only [allWF, Bool.and_eq_true]
+          refine ⟨⟨hw.1, ?_⟩, trLL_wf env hT rest l d k1 c k2 hp.2 hr⟩
+          cases ho : orPass a with
+          | nil => exact absurd ho hw.2
+          | cons _ _ => rfl
+end
+
+/-- **C02, tree level**: every program whose `X` / `x` stand where `parse` recorded them (`placedL false false`: the top level
+    is neither in a loop nor in a function) transpiles — when it transpiles at all — to Python that is well formed in the
+    sense `compile()` checks: `break` / `continue` inside a loop of the same function, `return` inside a function, no
+    empty block, only nodes the emitted grammar has.  Every structure, modifier and token kind, any nesting. -/
+theorem transpile_wf (env : TEnv) (hT : TablesWF env) (prog : List Structure) (hp : placedL false false prog = true)
+    (code : List PyStmt) (ht : transpileAst env prog = .ok code) : wfL false false code = true ∧ code ≠ [] := by
+  unfold transpileAst at ht
+  cases htl : transpileL env 0 prog with
+  | error e => simp [htl] at ht
+  | ok r =>
+    obtain ⟨c, k'⟩ := r
+    simp [htl] at ht; subst ht
+    exact wf_orPass false false c (trL_wf env hT prog false false 0 c k' hp htl)
+
+/-- the regenerated tables satisfy the hypothesis -/
+theorem gen_tables_wf (env : TEnv) (he : env.elements = Gen.elements) (hm : env.modifiers = Gen.modifiers) : TablesWF env := by
+  unfold TablesWF; rw [he, hm]; exact templates_wf
 
 end C02
